@@ -99,7 +99,7 @@ def judge(roots: dict, case: dict, variant: int, *, subprocess_too: bool = False
         res["drift"].append(f"Impl transcription predicts {(impl['exit'], impl['status'])}, real {(obs['rc'], status)} for {argv}")
     if subprocess_too:
         sub = K.run_cli_subprocess(root, argv, env=env)
-        same = sub["rc"] == obs["rc"] and sub["stdout"] == obs["stdout"] and (status == "exc" or sub["stderr"] == obs["stderr"] or ref["exit"] == 2)
+        same = sub["rc"] == obs["rc"] and sub["stdout"] == obs["stdout"] and (sub["stderr"] == obs["stderr"] or ref["exit"] not in (0, 1) or c["e"] == "missing")
         res["sub"] = same
         if not same:
             bad("module-entry", f"`python -m griffe` gives exit {sub['rc']} stderr {sub['stderr'][:120]!r}, griffe.main gives exit {obs['rc']} stderr {obs['stderr'][:120]!r}")
